@@ -60,7 +60,7 @@ def run(prop, tier, replay=None):
                 cmd.append(ops)
             hp = os.path.join(tmp, "%s-%s-%d.hash" % (mode, fl, w))
             wk = vlib.Worker(cmd, (mode, fl, w), timeout=3000 if tier == "thorough" else 900,
-                             env={"VERIF_HASH_OUT": hp})
+                             env={"VERIF_HASH_OUT": hp, "VERIF_PROP": prop})
             wk.hash_path = hp
             workers.append(wk)
     vlib.run_pool(workers)
